@@ -765,4 +765,272 @@ theorem mergeArrs_col' (arrs : List Cols) (f : String) :
   rw [mergeArrs_eq, getCol_foldl_setCol]
   cases lastEntry arrs.flatten f <;> simp [getCol]
 
+/-! ### `_mergable_check` raises nothing but `ValueError` -/
+
+theorem chunk_eta_simple (c : Chunk) (rid : String) (hsub : c.subruns = none) (hrid : c.runId = some rid)
+    (hsup : c.superrun = [⟨rid, c.start, c.stop⟩]) :
+    (⟨c.dataType, c.kind, some rid, c.start, c.stop, c.rows, none, [⟨rid, c.start, c.stop⟩], c.target⟩ : Chunk) = c := by
+  cases c
+  simp_all
+
+def SpansNE (m : List (String × List (Int × Int))) : Prop := ∀ e ∈ m, e.2 ≠ []
+
+theorem addRun_ne {acc : List (String × List (Int × Int))} (r : Run) (h : SpansNE acc) :
+    SpansNE (addRun acc r) := by
+  induction acc with
+  | nil => intro e he; simp [addRun] at he; subst he; simp
+  | cons kv rest ih =>
+    obtain ⟨k, v⟩ := kv
+    simp only [addRun]
+    have hrest : SpansNE rest := fun e he => h e (by simp [he])
+    split
+    · intro e he
+      simp at he
+      rcases he with rfl | he
+      · simp
+      · exact hrest e he
+    · intro e he
+      simp at he
+      rcases he with rfl | he
+      · exact h _ (by simp)
+      · exact ih hrest e he
+
+theorem foldl_addRun_ne (l : Runs) {acc : List (String × List (Int × Int))} (h : SpansNE acc) :
+    SpansNE (l.foldl addRun acc) := by
+  induction l generalizing acc with
+  | nil => exact h
+  | cons r rest ih => exact ih (addRun_ne r h)
+
+theorem collectRuns_ne (rss : List (Option Runs)) : SpansNE (collectRuns rss) := by
+  unfold collectRuns
+  have h0 : SpansNE [] := by intro e he; simp at he
+  generalize ([] : List (String × List (Int × Int))) = acc at h0
+  induction rss generalizing acc with
+  | nil => exact h0
+  | cons rs rest ih =>
+    simp only [List.foldl_cons]
+    apply ih
+    cases rs with
+    | none => exact h0
+    | some l => exact foldl_addRun_ne l h0
+
+theorem mergableCheck_error {merge : Bool} {m : List (String × List (Int × Int))} {e : Err}
+    (hne : SpansNE m) (h : mergableCheck merge m = .error e) : e = .valueError := by
+  unfold mergableCheck at h
+  induction m generalizing e with
+  | nil => simp [pure, Except.pure] at h
+  | cons kv rest ih =>
+    rw [List.mapM_cons] at h
+    rcases bind_eq_error.1 h with h1 | ⟨b, -, h2⟩
+    · obtain ⟨k, spans⟩ := kv
+      have hsp : spans ≠ [] := hne (k, spans) (by simp)
+      simp only at h1
+      split at h1
+      · rename_i heq
+        have := congrArg List.length heq
+        simp at this
+        exact absurd this hsp
+      · repeat' split at h1
+        all_goals first
+          | (simp [throw, throwThe, MonadExceptOf.throw] at h1; exact h1.symm)
+          | (simp [pure, Except.pure] at h1)
+    · rcases bind_eq_error.1 h2 with h3 | ⟨bs, -, h4⟩
+      · exact ih (fun e he => hne e (by simp [he])) h3
+      · simp [pure, Except.pure] at h4
+
+theorem mergeSubruns_error {cs : List Chunk} {m : Bool} {e : Err} (h : mergeSubruns cs m = .error e) :
+    e = .valueError := by
+  unfold mergeSubruns at h
+  rcases bind_eq_error.1 h with h1 | ⟨b, -, h2⟩
+  · exact mergableCheck_error (collectRuns_ne _) h1
+  · simp [pure, Except.pure] at h2
+
+theorem mergeSuperrun_error {cs : List Chunk} {m : Bool} {e : Err} (h : mergeSuperrun cs m = .error e) :
+    e = .valueError :=
+  mergableCheck_error (collectRuns_ne _) h
+
+/-- `Chunk.concatenate` raises nothing but `ValueError` -/
+theorem concatenate_error {cs : List Chunk} {a : Bool} {e : Err} (h : concatenate cs a = .error e) :
+    e = .valueError := by
+  match cs with
+  | [] => simp [concatenate, throw, throwThe, MonadExceptOf.throw] at h; exact h.symm
+  | [c] => simp [concatenate, pure, Except.pure] at h
+  | c0 :: c1 :: rest =>
+    rw [concatenate_eq] at h
+    split at h; · simp at h; exact h.symm
+    split at h; · simp at h; exact h.symm
+    rcases bind_eq_error.1 h with h1 | ⟨p, -, h⟩
+    · unfold concatRun at h1
+      split at h1
+      · simp [pure, Except.pure] at h1
+      · rcases bind_eq_error.1 h1 with h2 | ⟨s, -, h3⟩
+        · exact mergeSuperrun_error h2
+        · simp [pure, Except.pure] at h3
+    · rcases bind_eq_error.1 h with h1 | ⟨s, -, h⟩
+      · unfold concatSub at h1
+        split at h1
+        · simp [pure, Except.pure] at h1
+        · exact mergeSubruns_error h1
+      · split at h
+        · simp at h; exact h.symm
+        · exact mkChunk_error h
+
+/-! ### splitting run annotations and merging them back -/
+
+theorem splitRunsList_cons (t : Int) (r : Run) (rest : Runs) :
+    splitRunsList t (r :: rest) =
+      if t ≤ r.start then ((splitRunsList t rest).1, r :: (splitRunsList t rest).2)
+      else if t < r.stop then
+        ({ r with stop := t } :: (splitRunsList t rest).1, { r with start := t } :: (splitRunsList t rest).2)
+      else (r :: (splitRunsList t rest).1, (splitRunsList t rest).2) := by
+  rcases hsp : splitRunsList t rest with ⟨a, b⟩
+  simp only [splitRunsList, hsp]
+
+theorem splitRunsList_all_right (t : Int) (rs : Runs) (h : ∀ x ∈ rs, t ≤ x.start) :
+    splitRunsList t rs = ([], rs) := by
+  induction rs with
+  | nil => rfl
+  | cons r rest ih =>
+    rw [splitRunsList_cons, ih (fun x hx => h x (by simp [hx]))]
+    simp [h r (by simp)]
+
+theorem splitRunsList_props (t : Int) (rs : Runs) (hpos : ∀ r ∈ rs, r.start < r.stop) :
+    (∀ x ∈ (splitRunsList t rs).1, x.start < x.stop ∧ ∃ y ∈ rs, x.id = y.id) ∧
+    (∀ x ∈ (splitRunsList t rs).2, x.start < x.stop ∧ ∃ y ∈ rs, x.id = y.id) := by
+  induction rs with
+  | nil => simp [splitRunsList]
+  | cons r rest ih =>
+    have ih' := ih (fun x hx => hpos x (by simp [hx]))
+    have hr := hpos r (by simp)
+    rw [splitRunsList_cons]
+    have lift : ∀ x : Run, (∃ y ∈ rest, x.id = y.id) → ∃ y ∈ r :: rest, x.id = y.id := by
+      rintro x ⟨y, hy, e⟩; exact ⟨y, by simp [hy], e⟩
+    split
+    · refine ⟨fun x hx => ⟨(ih'.1 x hx).1, lift x (ih'.1 x hx).2⟩, ?_⟩
+      intro x hx
+      simp at hx
+      rcases hx with rfl | hx
+      · exact ⟨hr, x, by simp, rfl⟩
+      · exact ⟨(ih'.2 x hx).1, lift x (ih'.2 x hx).2⟩
+    · split
+      · constructor
+        · intro x hx
+          simp at hx
+          rcases hx with rfl | hx
+          · exact ⟨by simp; omega, r, by simp, rfl⟩
+          · exact ⟨(ih'.1 x hx).1, lift x (ih'.1 x hx).2⟩
+        · intro x hx
+          simp at hx
+          rcases hx with rfl | hx
+          · exact ⟨by simp; omega, r, by simp, rfl⟩
+          · exact ⟨(ih'.2 x hx).1, lift x (ih'.2 x hx).2⟩
+      · refine ⟨?_, fun x hx => ⟨(ih'.2 x hx).1, lift x (ih'.2 x hx).2⟩⟩
+        intro x hx
+        simp at hx
+        rcases hx with rfl | hx
+        · exact ⟨hr, x, by simp, rfl⟩
+        · exact ⟨(ih'.1 x hx).1, lift x (ih'.1 x hx).2⟩
+
+theorem popEmpty_of_pos (l : Runs) (h : ∀ x ∈ l, x.start < x.stop) :
+    popEmpty l = if l = [] then none else some l := by
+  have hf : l.filter (fun r => r.start != r.stop) = l := by
+    rw [List.filter_eq_self]
+    intro x hx
+    have := h x hx
+    simp; omega
+  unfold popEmpty
+  rw [hf]
+  cases l <;> simp
+
+theorem collectRuns_two (a b : Runs) (ha : ∀ x ∈ a, x.start < x.stop) (hb : ∀ x ∈ b, x.start < x.stop) :
+    collectRuns [popEmpty a, popEmpty b] = b.foldl addRun (a.foldl addRun []) := by
+  rw [popEmpty_of_pos a ha, popEmpty_of_pos b hb]
+  cases a <;> cases b <;> simp [collectRuns]
+
+theorem foldl_addRun_fresh (l : Runs) (k : String) (v : List (Int × Int))
+    (X : List (String × List (Int × Int))) (h : ∀ x ∈ l, x.id ≠ k) :
+    l.foldl addRun ((k, v) :: X) = (k, v) :: l.foldl addRun X := by
+  induction l generalizing X with
+  | nil => rfl
+  | cons r rest ih =>
+    have hr : ¬ k = r.id := fun e => h r (by simp) e.symm
+    simp only [List.foldl_cons, addRun, beq_iff_eq, hr, if_false]
+    exact ih _ (fun x hx => h x (by simp [hx]))
+
+/-- the spans recorded for run `r` after splitting at `t` and collecting both sides -/
+def splitEntry (t : Int) (r : Run) : String × List (Int × Int) :=
+  (r.id, if r.start < t ∧ t < r.stop then [(r.start, t), (t, r.stop)] else [(r.start, r.stop)])
+
+theorem collect_split (t : Int) (rs : Runs) (hs : rs.Pairwise (fun a b => a.start ≤ b.start))
+    (hnd : (rs.map (·.id)).Nodup) (hpos : ∀ r ∈ rs, r.start < r.stop) :
+    (splitRunsList t rs).2.foldl addRun ((splitRunsList t rs).1.foldl addRun []) = rs.map (splitEntry t) := by
+  induction rs with
+  | nil => rfl
+  | cons r rest ih =>
+    have hs' := List.pairwise_cons.1 hs
+    simp only [List.map_cons, List.nodup_cons, List.mem_map, not_exists, not_and] at hnd
+    have ih' := ih hs'.2 hnd.2 (fun x hx => hpos x (by simp [hx]))
+    have hprops := splitRunsList_props t rest (fun x hx => hpos x (by simp [hx]))
+    have hfresh1 : ∀ x ∈ (splitRunsList t rest).1, x.id ≠ r.id := by
+      intro x hx e
+      obtain ⟨y, hy, e'⟩ := (hprops.1 x hx).2
+      exact hnd.1 y hy (by rw [← e', e])
+    have hfresh2 : ∀ x ∈ (splitRunsList t rest).2, x.id ≠ r.id := by
+      intro x hx e
+      obtain ⟨y, hy, e'⟩ := (hprops.2 x hx).2
+      exact hnd.1 y hy (by rw [← e', e])
+    have hr := hpos r (by simp)
+    rw [splitRunsList_cons]
+    simp only [List.map_cons]
+    split
+    · rename_i h1
+      have hall : ∀ x ∈ rest, t ≤ x.start := by
+        intro x hx; have := hs'.1 x hx; omega
+      have hnil := splitRunsList_all_right t rest hall
+      rw [hnil] at ih' hfresh2 ⊢
+      simp only [List.foldl_nil, List.foldl_cons, addRun] at ih' ⊢
+      rw [foldl_addRun_fresh _ _ _ _ hfresh2, ih']
+      have : ¬ (r.start < t ∧ t < r.stop) := by omega
+      simp [splitEntry, this]
+    · split
+      · rename_i h1 h2
+        simp only [List.foldl_cons, addRun]
+        rw [foldl_addRun_fresh _ _ _ _ hfresh1]
+        simp only [addRun, beq_self_eq_true, if_true]
+        rw [foldl_addRun_fresh _ _ _ _ hfresh2, ih']
+        have : r.start < t ∧ t < r.stop := by omega
+        simp [splitEntry, this]
+      · rename_i h1 h2
+        simp only [List.foldl_cons, addRun]
+        rw [foldl_addRun_fresh _ _ _ _ hfresh1, foldl_addRun_fresh _ _ _ _ hfresh2, ih']
+        have : ¬ (r.start < t ∧ t < r.stop) := by omega
+        simp [splitEntry, this]
+
+theorem mergableCheck_splitEntries (t : Int) (rs : Runs) :
+    mergableCheck false (rs.map (splitEntry t)) = .ok rs := by
+  unfold mergableCheck
+  induction rs with
+  | nil => rfl
+  | cons r rest ih =>
+    rw [List.map_cons, List.mapM_cons, ih]
+    simp only [splitEntry]
+    by_cases h : r.start < t ∧ t < r.stop
+    · have hsort : [(r.start, t), (t, r.stop)].mergeSort (fun a b => decide (a.1 ≤ b.1))
+          = [(r.start, t), (t, r.stop)] := by
+        apply List.mergeSort_of_pairwise
+        simp; omega
+      simp [h, hsort, contiguousSpans, bind, Except.bind, pure, Except.pure]
+    · simp [h, contiguousSpans, bind, Except.bind, pure, Except.pure]
+
+/-- splitting sorted, distinct, non-empty run spans at `t` and merging the two sides back with
+`_merge_runs_in_chunk` + `_mergable_check(merge=False)` returns the original spans -/
+theorem split_merge_runs' (t : Int) (rs : Runs) (hs : rs.Pairwise (fun a b => a.start ≤ b.start))
+    (hnd : (rs.map (·.id)).Nodup) (hpos : ∀ r ∈ rs, r.start < r.stop) :
+    mergableCheck false (collectRuns [(splitRuns (some rs) t).1, (splitRuns (some rs) t).2]) = .ok rs := by
+  have hprops := splitRunsList_props t rs hpos
+  simp only [splitRuns]
+  rw [collectRuns_two _ _ (fun x hx => (hprops.1 x hx).1) (fun x hx => (hprops.2 x hx).1),
+    collect_split t rs hs hnd hpos, mergableCheck_splitEntries]
+
+
 end Strax
